@@ -173,24 +173,25 @@ Theorem sort_order_choice : forall l,
 Proof. intros l. unfold sort_le. destruct (forallb is_num l); split; congruence. Qed.
 Print Assumptions sort_order_choice.
 
-(* the only crash: an element that is a function or a native method *)
-Theorem sort_panics_only_on_functions : forall s pa l args,
+(* an element that is a function or a native method cannot be copied: sort is then a runtime
+   error and changes nothing (this used to be a crash; fixed in /repo) *)
+Theorem sort_error_on_functions : forall s pa l args,
   abs (hp s) pa = Some l -> forallb copyable l = false ->
-  native_call NSort args (Some pa) s = (Panic, s).
-Proof. exact Arrays.sort_panics. Qed.
-Print Assumptions sort_panics_only_on_functions.
+  native_call NSort args (Some pa) s = (Ok NError, s).
+Proof. exact Arrays.sort_errors. Qed.
+Print Assumptions sort_error_on_functions.
 
 Example sort_order_choice_ex :
   forallb is_num ex_l = false /\ forallb is_num [VNum f_one; VNum f_zero] = true /\
   ideal_sort [VNum (f_of_Z 10); VNum (f_of_Z 9)] = [VNum (f_of_Z 9); VNum (f_of_Z 10)] /\
   ideal_sort [VNum (f_of_Z 10); VNum (f_of_Z 9); VStr (bs "x")] = [VNum (f_of_Z 10); VNum (f_of_Z 9); VStr (bs "x")].
 Proof. vm_compute. repeat split; reflexivity. Qed.
-Example sort_panics_ex :
+Example sort_error_on_functions_ex :
   let '(c, h1) := alloc empty_heap (VFn 0) in
   let '(arr, h2) := new_array_of h1 [c] in
   let '(pa, h3) := alloc h2 arr in
   abs h3 pa = Some [VFn 0] /\ forallb copyable [VFn 0] = false /\
-  fst (native_call NSort [] (Some pa) (st_of h3)) = Panic.
+  native_call NSort [] (Some pa) (st_of h3) = (Ok NError, st_of h3).
 Proof. vm_compute. repeat split; reflexivity. Qed.
 Example sort_ex :
   forallb copyable ex_l = true /\
